@@ -20,7 +20,8 @@ def export_cases(ctx):
     the field-set family with generated arguments, and the argument-profile family (special values)."""
     cases = []
     for cfg, what in (('OciFuncsMC.cfg', '18 methods x {each field alone, all but one, all, none} x constructor x nil/non-nil table: '
-                                         'OwnFieldOnly (pairwise over the family, and per case), totality, nil = empty, one yield'),
+                                         'OwnFieldOnly (pairwise over the family, and per case), totality, nil = empty, one yield; exported per stub result mode '
+                                         '(value, value+error, zero values, zero+error, iterator with errors mid-stream) and constructor kind (fresh error, nil, same value, by argument, panic)'),
                       ('OciFuncsMC_args.cfg', '18 methods x {each field alone, all, none, all but the own} x constructor (and the nil table) x the '
                                               'product of special argument values per parameter (156 profiles), and x {cancelled, expired, nil} context: outcome independent of arguments')):
         cs, r = vlib.generate(ctx, 'OciFuncsMC.tla', cfg, workers=1, timeout=300)
@@ -35,6 +36,7 @@ def export_cases(ctx):
         for c in cs:
             c.setdefault('av', [])
             c.setdefault('cx', 'live')
+            c.setdefault('ck', 'tag' if c['custom'] else 'none')
         cases += cs
     if not any(c['av'] for c in cases) or {c['cx'] for c in cases} != {'live', 'cancelled', 'expired', 'nil'}:
         raise vlib.Machinery('the cases with special argument values / contexts were not all exported')
@@ -89,11 +91,11 @@ def count(ctx, trace):
 
 
 def brief(e):
-    keep = ('op', 'id', 'm', 'F', 'custom', 'nilrecv', 'sret', 'pred', 'av', 'cx', 'passed', 'calls', 'ctor', 'got', 'err', 'yields', 'seqnil', 'panic', 'msg')
+    keep = ('op', 'id', 'm', 'F', 'custom', 'nilrecv', 'sret', 'ck', 'pred', 'av', 'cx', 'passed', 'calls', 'ctor', 'got', 'err', 'yields', 'yieldsE', 'yieldsA', 'seqnil', 'panic', 'pval', 'msg')
     return {k: e[k] for k in keep if k in e}
 
 
-def samples(trace, want=8):
+def samples(trace, want=12):
     out = []
     with open(trace) as f:
         f.readline()
@@ -102,7 +104,7 @@ def samples(trace, want=8):
             e = json.loads(l)
             if e['op'] == 'reset':
                 continue
-            key = (e.get('pred'), e['m'] in ('Repositories', 'Tags', 'Referrers'), bool(e.get('av')), e.get('cx'))
+            key = (e.get('pred'), e['m'] in ('Repositories', 'Tags', 'Referrers'), bool(e.get('av')), e.get('cx'), e.get('ck'), e.get('sret') == 'mid')
             if key in seen:
                 continue
             seen.add(key)
@@ -120,7 +122,7 @@ def name_observations(ctx, trace):
     for s in scen:
         if len(s) == 2:
             e = json.loads(s[1])
-            if e['op'] == 'call' and e['F'] == [] and not e['av'] and e['cx'] == 'live':
+            if e['op'] == 'call' and e['F'] == [] and not e['av'] and e['cx'] == 'live' and e['ck'] in ('none', 'tag'):
                 sel.append(s)
     obs = []
     p = os.path.join(ctx.sub('strictname'), 'strict.ndjson')
